@@ -184,41 +184,17 @@ theorem chainOK_blRoot_len (hs : Hs D) (L : List (RRec D)) (H : ChainOK hs L) (r
     r.hdr.blRoot.length = 32 :=
   ext_blRoot_len hs r (chainOK_mem_ext hs L H r hr)
 
-/-- The `BlRoot` left in the pooled `Tx` object by `OpenWith`: that of the last record read. -/
-theorem lastRead_blRoot_len (recs chain committed : List (RRec D))
-    (h1 : ∀ r ∈ recs, r.hdr.blRoot.length = 32) (h2 : ∀ r ∈ chain, r.hdr.blRoot.length = 32)
-    (h3 : ∀ r ∈ committed, r.hdr.blRoot.length = 32) :
-    (match (match (recs.drop chain.length).head? with
-        | some r => some r
-        | none => match chain.getLast? with
-          | some r => some r
-          | none => committed.getLast?) with
-      | some r => r.hdr.blRoot
-      | none => zeros32).length = 32 := by
-  cases e1 : (recs.drop chain.length).head? with
-  | some r =>
-    exact h1 r (List.mem_of_mem_drop (List.mem_of_mem_head? (by rw [e1]; rfl)))
-  | none =>
-    cases e2 : chain.getLast? with
-    | some r => exact h2 r (List.mem_of_getLast? e2)
-    | none =>
-      cases e3 : committed.getLast? with
-      | some r => exact h3 r (List.mem_of_getLast? e3)
-      | none => simp [zeros32]
-
 /-- The invariant: the chain is well-formed, every record physically in the tx log (live or
-discarded) and the record of a buffer-full rejection was accepted on top of SOME well-formed chain,
-and the pooled `Tx` object holds a 32-byte `BlRoot`. -/
+discarded) and the record of a buffer-full rejection was accepted on top of SOME well-formed chain. -/
 structure CInv (hs : Hs D) (cfg : RCfg) (st : RSt D) : Prop where
   cfg : st.cfg = cfg
   chain : ChainOK hs st.chain
   log : ∀ x ∈ st.log, ∃ X, ChainOK hs (X ++ [x.1])
   ghost : ∀ r, st.ghost = some r → ∃ X, ChainOK hs (X ++ [r])
-  pool : st.poolBlRoot.length = 32
 
 theorem cinv_init (hs : Hs D) (cfg : RCfg) : CInv hs cfg (RSt.init cfg : RSt D) :=
   ⟨rfl, by simpa [RSt.init, RSt.chain, RSt.pre] using chainOK_nil hs, fun r h => by simp [RSt.init] at h,
-   fun r h => by simp [RSt.init] at h, by simp [RSt.init, zeros32]⟩
+   fun r h => by simp [RSt.init] at h⟩
 
 theorem cinv_mayCommit {hs : Hs D} {cfg : RCfg} {st st' : RSt D} (hi : CInv hs cfg st)
     (h : mayCommit st = .ok st') : CInv hs cfg st' := by
@@ -226,14 +202,14 @@ theorem cinv_mayCommit {hs : Hs D} {cfg : RCfg} {st st' : RSt D} (hi : CInv hs c
   rcases mayCommit_ok_inv st st' h with rfl | ⟨cnt, rfl⟩
   · exact hi
   · exact ⟨hi.cfg, by rw [hch]; exact hi.chain, fun x hx => hi.log x ((commitLog_spec cnt st.log).2 x hx),
-      hi.ghost, hi.pool⟩
+      hi.ghost⟩
 
 theorem cinv_sync {hs : Hs D} {cfg : RCfg} {st : RSt D} (hi : CInv hs cfg st) : CInv hs cfg (sync st).st := by
   unfold sync
   split
   · exact hi
   · dsimp only
-    have hi1 : CInv hs cfg { st with durable := st.lastPre } := ⟨hi.cfg, hi.chain, hi.log, hi.ghost, hi.pool⟩
+    have hi1 : CInv hs cfg { st with durable := st.lastPre } := ⟨hi.cfg, hi.chain, hi.log, hi.ghost⟩
     split
     · exact hi1
     · rename_i st2 h2; exact cinv_mayCommit hi1 h2
@@ -247,7 +223,7 @@ theorem cinv_allow {hs : Hs D} {cfg : RCfg} {st : RSt D} (hi : CInv hs cfg st) (
   · exact hi
   dsimp only
   have hi1 : CInv hs cfg { st with allowed := if st.lastPre < txID then st.lastPre else txID } :=
-    ⟨hi.cfg, hi.chain, hi.log, hi.ghost, hi.pool⟩
+    ⟨hi.cfg, hi.chain, hi.log, hi.ghost⟩
   split
   · exact hi1
   split
@@ -265,7 +241,7 @@ theorem cinv_discard {hs : Hs D} {cfg : RCfg} {st : RSt D} (hi : CInv hs cfg st)
   · exact hi
   dsimp only
   obtain ⟨k1, k2⟩ := keepLive_spec (st.pre.length - (st.lastPre + 1 - txID)) st.log
-  refine ⟨hi.cfg, ?_, ?_, hi.ghost, hi.pool⟩
+  refine ⟨hi.cfg, ?_, ?_, hi.ghost⟩
   · show ChainOK hs (st.committed ++ live (keepLive _ st.log))
     rw [k1]
     exact chainOK_append_take hs _ _ _ hi.chain
@@ -286,11 +262,7 @@ theorem cinv_restart (hs : Hs D) (hc : ¬ HColl hs) {cfg : RCfg} {st : RSt D} (h
     · obtain ⟨y, hy, e⟩ := List.mem_map.1 h
       rw [← e]; exact hi.log y hy
     · exact hi.ghost r (by simpa using h)
-  refine ⟨hi.cfg, ?_, ?_, fun r h => by simp at h, ?_⟩
-  rotate_left 2
-  · exact lastRead_blRoot_len _ _ _ (fun r hr => ext_blRoot_len hs r (hall r hr))
-      (fun r hr => ext_blRoot_len hs r (hall r (r1 r hr)))
-      (fun r hr => chainOK_blRoot_len hs _ hi.chain r (by simp [RSt.chain, hr]))
+  refine ⟨hi.cfg, ?_, ?_, fun r h => by simp at h⟩
   · show ChainOK hs (st.committed ++ live (List.map (fun r => (r, true)) _))
     rw [live_map_true]
     exact reload_chain hs hc _ st.committed (chainOK_append_left hs st.committed st.pre hi.chain) hall
@@ -309,12 +281,11 @@ theorem cinv_replicate (hs : Hs D) {cfg : RCfg} (hk : cfg.maxKeyLen < 65536) {st
     | error x => exact hi
     | ok r =>
       dsimp only
-      have hr : RecOK hs st.chain r := precommit_recOK hs st (by rw [hi.cfg]; exact hk) hi.pool b p skip r hp hpc
+      have hr : RecOK hs st.chain r := precommit_recOK hs st (by rw [hi.cfg]; exact hk) b p skip r hp hpc
       have hch : ChainOK hs (st.chain ++ [r]) := (chainOK_snoc hs _ r).2 ⟨hi.chain, hr⟩
-      have hrl : r.hdr.blRoot.length = 32 := ext_blRoot_len hs r ⟨_, hch⟩
       by_cases c1 : st.pre.length ≥ st.bufCap
       · rw [if_pos c1]
-        exact ⟨hi.cfg, hi.chain, hi.log, fun r' h => by cases h; exact ⟨_, hch⟩, hrl⟩
+        exact ⟨hi.cfg, hi.chain, hi.log, fun r' h => by cases h; exact ⟨_, hch⟩⟩
       rw [if_neg c1]
       have hl : ∀ x ∈ st.log ++ [(r, true)], ∃ X, ChainOK hs (X ++ [x.1]) := by
         intro x hx
@@ -326,8 +297,8 @@ theorem cinv_replicate (hs : Hs D) {cfg : RCfg} (hk : cfg.maxKeyLen < 65536) {st
         have e : live [(r, true)] = [r] := by simp
         rw [live_append, e, ← List.append_assoc]
         exact hch
-      have hi2 : ∀ (d w : Nat), CInv hs cfg { st with log := st.log ++ [(r, true)], ghost := none, poolBlRoot := r.hdr.blRoot, waitDone := w, durable := d } :=
-        fun d w => ⟨hi.cfg, hc2, hl, fun r' h => (by cases h), hrl⟩
+      have hi2 : ∀ (d w : Nat), CInv hs cfg { st with log := st.log ++ [(r, true)], ghost := none, waitDone := w, durable := d } :=
+        fun d w => ⟨hi.cfg, hc2, hl, fun r' h => (by cases h)⟩
       by_cases c2 : st.cfg.synced = true
       · rw [if_pos c2]
         exact hi2 _ _
